@@ -35,6 +35,10 @@ def mc(ctx, failed, module, cfg, name, **kw):
 
 
 def close(ctx, failed):
+    if ctx.drift and not ctx.violations:
+        ctx.note("STEP-MODEL DRIFT on %d observed cases although no property clause failed: the code no longer "
+                 "follows the algorithm model, so the exhaustive result of M does not transfer - look at the DRIFT "
+                 "lines" % len(ctx.drift))
     if failed and not ctx.violations:
         raise core.MachineryError("the algorithm model violates its invariants (%s) but no observation of the real "
                                   "code violates the property: the model does not describe the code" % "; ".join(failed))
